@@ -65,11 +65,12 @@ static mpz_t ZA, ZB, ZC, ZE, ZE2, ZT, ZT2, ZG;
 /* State shared (MAP_SHARED) between the shard parent and its forked batch children, so that
  * counters and distinct-case hashes survive a child that is killed by a sanitizer report. */
 #define NSTAT 200
-typedef struct { volatile long cur; char spec[160]; volatile unsigned long dn; int nstat; struct { char k[64]; long v; } st[NSTAT];
+typedef struct { volatile long cur; char spec[160]; volatile unsigned long dn, nnew; int nstat; struct { char k[64]; long v; } st[NSTAT];
                  volatile int cursig; unsigned char crashcnt[64][256]; } shared_t;
 static shared_t *SH;
-static uint64_t *DSET;
+static uint64_t *DSET, *NEWH;            /* all hashes seen in this shard; hashes not yet handed to vf.h */
 #define DCAP (1UL << 21)
+#define NEWCAP (1UL << 20)
 
 static void stat_add(const char *k, long v)
 {
@@ -86,14 +87,17 @@ static void distinct(const char *fmt, ...)
     uint64_t h = vf_hash(k, n); if (!h) h = 1;
     size_t i = h & (DCAP - 1);
     while (DSET[i]) { if (DSET[i] == h) return; i = (i + 1) & (DCAP - 1); }
-    if (SH->dn < DCAP / 2) { DSET[i] = h; SH->dn++; }
+    if (SH->dn < DCAP / 2 && SH->nnew < NEWCAP) { DSET[i] = h; SH->dn++; NEWH[SH->nnew++] = h; }
 }
-/* parent, once: hand the accumulated counters and hashes to the vf.h protocol */
+/* parent, after every batch: hand the accumulated counters and new hashes to the vf.h protocol
+ * (records are additive, so a shard that is killed later keeps what it had reported) */
 static void publish(void)
 {
-    int i; size_t j;
-    for (i = 0; i < SH->nstat; i++) vf_stat(SH->st[i].k, SH->st[i].v);
-    for (j = 0; j < DCAP; j++) if (DSET[j]) vf_distinct_h(DSET[j]);
+    int i; unsigned long j;
+    for (i = 0; i < SH->nstat; i++) if (SH->st[i].v) { vf_stat(SH->st[i].k, SH->st[i].v); SH->st[i].v = 0; }
+    for (j = 0; j < SH->nnew; j++) vf_distinct_h(NEWH[j]);
+    SH->nnew = 0;
+    vf_flush();
 }
 
 static int szclass(int n)
@@ -1126,17 +1130,19 @@ static long scaled(const opdef *o, long mult)
 
 int main(int argc, char **argv)
 {
-    int i, crashes[64] = { 0 };
+    int i, crashes[64] = { 0 }, hangs[64] = { 0 }, batch_timeout;
     long mult, bi = 0, crash_budget;
     vf_init(argc, argv);
     g_variant = vf_arg("--variant", "asan");
     mult = vf_argl("--mult", 1);
-    crash_budget = vf_argl("--crash-budget", 2000 * mult);    /* per op and shard; bounds the fork-resume work */
+    crash_budget = vf_argl("--crash-budget", 400);            /* aborts per op and shard; bounds the fork-resume work */
+    batch_timeout = (int) vf_argl("--batch-timeout", mult > 1 ? 300 : 90);   /* watchdog only; a batch takes a few seconds */
     if (psCryptoOpen(PSCRYPTO_CONFIG) < 0) { vf_incon("psCryptoOpen failed"); vf_flush(); return 2; }
     mpz_inits(ZA, ZB, ZC, ZE, ZE2, ZT, ZT2, ZG, NULL);
     SH = mmap(NULL, sizeof *SH, PROT_READ | PROT_WRITE, MAP_SHARED | MAP_ANONYMOUS, -1, 0);
     DSET = mmap(NULL, DCAP * 8, PROT_READ | PROT_WRITE, MAP_SHARED | MAP_ANONYMOUS | MAP_NORESERVE, -1, 0);
-    if (SH == MAP_FAILED || DSET == MAP_FAILED) { vf_incon("mmap failed"); vf_flush(); return 2; }
+    NEWH = mmap(NULL, NEWCAP * 8, PROT_READ | PROT_WRITE, MAP_SHARED | MAP_ANONYMOUS | MAP_NORESERVE, -1, 0);
+    if (SH == MAP_FAILED || DSET == MAP_FAILED || NEWH == MAP_FAILED) { vf_incon("mmap failed"); vf_flush(); return 2; }
 
     if (vf_case) {      /* replay exactly one case */
         char opn[64] = "", var[32] = ""; long j = -1; unsigned long long sd = vf_seed; const char *p;
@@ -1162,17 +1168,21 @@ int main(int argc, char **argv)
         for (j0 = 0; j0 < n; j0 += bsz, bi++) {
             long from = j0, to = j0 + bsz < n ? j0 + bsz : n;
             if (!vf_mine(bi)) continue;
+            if (hangs[i] >= 2) { stat_addf(to - from, "skipped_after_crashes_%s", OPS[i].name); continue; }
             while (from < to) {
                 batch_t b = { i, from, to };
                 SH->cur = from - 1; SH->spec[0] = 0;
-                int rc = vf_fork_case(run_batch, &b, OPS[i].name, SH->spec, vf_thorough ? 1800 : 300);
+                int rc = vf_fork_case(run_batch, &b, OPS[i].name, SH->spec, batch_timeout);
                 if (rc == 0) break;
                 /* the child died in case SH->cur: recorded with its exact spec; go on behind it */
-                stat_addf(1, "aborted_%s", OPS[i].name);
-                if (SH->crashcnt[i][SH->cursig & 255] < 255) SH->crashcnt[i][SH->cursig & 255]++;
+                stat_addf(1, rc == 2 ? "hung_%s" : "aborted_%s", OPS[i].name);
+                if (rc == 2) { SH->crashcnt[i][SH->cursig & 255] = 255; hangs[i]++; }       /* a hang costs a whole timeout: skip its class at once */
+                else if (SH->crashcnt[i][SH->cursig & 255] < 255) SH->crashcnt[i][SH->cursig & 255]++;
                 from = SH->cur + 1;
-                if (++crashes[i] >= crash_budget) { stat_addf(to - from, "skipped_after_crashes_%s", OPS[i].name); break; }
+                if (++crashes[i] >= crash_budget || hangs[i] >= 2) { stat_addf(to - from, "skipped_after_crashes_%s", OPS[i].name); break; }
             }
+            publish();
+            if (hangs[i] >= 2) { stat_addf(1, "op_abandoned_after_hangs_%s", OPS[i].name); }
         }
     }
     publish();
